@@ -9,8 +9,14 @@ LEVEL = 'proof'
 RULE = ('corpus; structured random 2-D images with even sides 2..64 (square and not, biased to small sizes and powers of '
         'two) x float32/float64/integer dtypes x seven layouts x preserve_energy on/off x inline on/off x all ten '
         'Daubechies codes x borders {ncoeffs-3, ncoeffs-2, ncoeffs, ncoeffs+1, ncoeffs+5} (and smaller ones); '
-        'round trips, energy, D2 = Haar, linearity with integer weights, input untouched. Non-trivial = the image is '
-        'not constant zero; distinct = distinct case.')
+        'round trips, energy, D2 = Haar, linearity with integer weights, input untouched; Daubechies energy against the '
+        'proved bound (fill value 0). Memory-level cases (kind mem): sides 1..20 ODD AND EVEN x eleven layouts (C, '
+        'Fortran, strided, negative strides, offset, transposed, column step 3, padded rows, reversed rows, strided '
+        'transposed) x the four wrappers x inline on/off x eight dtypes: the whole buffer owning the input before/after '
+        'the call and the returned image against Model/C17Mem.lean. Centre cases (kind centeri): 1-3 dimensions x integer '
+        'borders negative / 0..24 / 2^k+-1 up to 2^40-1 / out of range, zero sides: _wavelet_center_compute, '
+        'wavelet_center, wavelet_decenter against centerComputeI. Non-trivial = the image is not constant zero; '
+        'distinct = distinct case.')
 ASSUMPTIONS = [
     'finite values, |f| <= 1e6; even sides (the statement names them); sizes < 2^31',
     'Daubechies reconstruction is asserted when the offsets at which wavelet_center embeds the image are >= ncoeffs - 2 '
@@ -27,6 +33,13 @@ ASSUMPTIONS = [
     'model comparison 1e-12*scale for float64 and integer images, 1e-4*scale for float32 images (the kernels then '
     'compute in float32, the model in double)',
     'inline=True is not combined with read-only inputs (numpy refuses the final in-place scaling)',
+    'odd sides are outside the statement: on them only the memory-level model is compared (model-kind findings); a write '
+    'into the caller\'s buffer with inline=False (or on an integer array) is a property finding on even sides only',
+    'Daubechies energy |sum w^2 - 4 sum fc^2| <= (4 tableTol[code] + 1e-12) sum fc^2 (float32 images: + 1e-4) is asserted '
+    'under the hypothesis of theorem C17_tables_energy_bound (fill value 0, embedding offsets >= ncoeffs-2) as a '
+    'model-kind check: the statement names only the Haar energy',
+    'wavelet_center is only executed when the centred array has at most 2^16 elements; for larger results (huge borders) '
+    'only _wavelet_center_compute (shape and offsets) is compared with the model',
 ]
 TRUSTED = ['numpy (array construction, layout views)']
 CODES = ['D%d' % i for i in range(2, 21, 2)]
